@@ -203,3 +203,92 @@ theorem conformant_root_initial {d : Doc} (h : conformantB d = true)
     exact this.2
 
 end Rfsm.Interp
+
+namespace Rfsm.Interp
+
+/-- what processing one transition adds to the entry set -/
+def entryStep (d : Doc) (hv : Table) (acc : EntryAcc) (tid : Nat) : EntryAcc :=
+  let t := getTrans d tid
+  let acc := t.target.foldl (fun a s => addDesc d hv (entryFuel d) s a) acc
+  let anc := transDomain d hv t
+  (effTargets d hv t).foldl (fun a s => addAnc d hv (entryFuel d) s anc a) acc
+
+theorem computeEntrySet_eq (d : Doc) (hv : Table) (ts : List Nat) :
+    computeEntrySet d hv ts = ts.foldl (entryStep d hv) {} := rfl
+
+theorem entryStep_mono (d : Doc) (hv : Table) (acc : EntryAcc) (tid x : Nat) (hx : x ∈ acc.toEnter) :
+    x ∈ (entryStep d hv acc tid).toEnter := by
+  unfold entryStep
+  simp only
+  refine foldl_inv (fun (a : EntryAcc) => x ∈ a.toEnter) _ (fun b s hb => addAnc_mono hv _ s _ b x hb) _ _ ?_
+  exact foldl_inv (fun (a : EntryAcc) => x ∈ a.toEnter) _ (fun b s hb => addDesc_mono hv _ s b x hb) _ _ hx
+
+theorem entryFold_mono (d : Doc) (hv : Table) : ∀ (ts : List Nat) (acc : EntryAcc) (x : Nat),
+    x ∈ acc.toEnter → x ∈ (ts.foldl (entryStep d hv) acc).toEnter := by
+  intro ts
+  induction ts with
+  | nil => intro acc x h; exact h
+  | cons t ts ih => intro acc x h; exact ih _ x (entryStep_mono d hv acc t x h)
+
+/-- one transition: its proper-state targets and, for every effective target, all proper ancestors
+    below the transition's domain are in the entry set afterwards -/
+theorem entryStep_adds (d : Doc) (hv : Table) (acc : EntryAcc) (tid : Nat) :
+    (∀ t ∈ (getTrans d tid).target, isHistoryState d t = false → t ∈ (entryStep d hv acc tid).toEnter) ∧
+    (∀ s ∈ effTargets d hv (getTrans d tid), ∀ a ∈ getProperAncestors d s (transDomain d hv (getTrans d tid)),
+      a ∈ (entryStep d hv acc tid).toEnter) := by
+  have hfuel : entryFuel d = (2 * d.states.length + 1) + 1 := by unfold entryFuel; omega
+  refine ⟨?_, ?_⟩
+  · intro t ht hn
+    unfold entryStep
+    simp only
+    refine foldl_inv (fun (a : EntryAcc) => t ∈ a.toEnter) _ (fun b s hb => addAnc_mono hv _ s _ b t hb) _ _ ?_
+    generalize (getTrans d tid).target = L at ht
+    induction L generalizing acc with
+    | nil => cases ht
+    | cons u L ih =>
+      simp only [List.foldl_cons]
+      rcases List.mem_cons.1 ht with rfl | ht
+      · refine foldl_inv (fun (a : EntryAcc) => t ∈ a.toEnter) _ (fun b s hb => addDesc_mono hv _ s b t hb) _ _ ?_
+        rw [hfuel]
+        exact addDesc_adds hv _ t acc hn
+      · exact ih _ ht
+  · intro s hs a ha
+    unfold entryStep
+    simp only
+    generalize (getTrans d tid).target.foldl (fun a s => addDesc d hv (entryFuel d) s a) acc = acc0
+    generalize effTargets d hv (getTrans d tid) = E at hs
+    induction E generalizing acc0 with
+    | nil => cases hs
+    | cons e E ih =>
+      simp only [List.foldl_cons]
+      rcases List.mem_cons.1 hs with rfl | hs
+      · refine foldl_inv (fun (x : EntryAcc) => a ∈ x.toEnter) _ (fun b c hb => addAnc_mono hv _ c _ b a hb) _ _ ?_
+        rw [hfuel]
+        exact addAnc_adds hv _ s _ acc0 a ha
+      · exact ih _ hs
+
+/-- the entry set of a microstep contains, for every taken transition, its proper-state targets
+    and all proper ancestors of its effective targets below its domain -/
+theorem computeEntrySet_adds (d : Doc) (hv : Table) (ts : List Nat) (tid : Nat) (htid : tid ∈ ts) :
+    (∀ t ∈ (getTrans d tid).target, isHistoryState d t = false → t ∈ (computeEntrySet d hv ts).toEnter) ∧
+    (∀ s ∈ effTargets d hv (getTrans d tid), ∀ a ∈ getProperAncestors d s (transDomain d hv (getTrans d tid)),
+      a ∈ (computeEntrySet d hv ts).toEnter) := by
+  rw [computeEntrySet_eq]
+  have key : ∀ (ts : List Nat) (acc : EntryAcc), tid ∈ ts →
+      (∀ t ∈ (getTrans d tid).target, isHistoryState d t = false → t ∈ (ts.foldl (entryStep d hv) acc).toEnter) ∧
+      (∀ s ∈ effTargets d hv (getTrans d tid), ∀ a ∈ getProperAncestors d s (transDomain d hv (getTrans d tid)),
+        a ∈ (ts.foldl (entryStep d hv) acc).toEnter) := by
+    intro ts
+    induction ts with
+    | nil => intro acc h; cases h
+    | cons u ts ih =>
+      intro acc h
+      simp only [List.foldl_cons]
+      rcases List.mem_cons.1 h with rfl | h
+      · have hs := entryStep_adds d hv acc tid
+        exact ⟨fun t ht hn => entryFold_mono d hv ts _ t (hs.1 t ht hn),
+               fun s hs' a ha => entryFold_mono d hv ts _ a (hs.2 s hs' a ha)⟩
+      · exact ih _ h
+  exact key ts {} htid
+
+end Rfsm.Interp
